@@ -73,3 +73,57 @@ fn scalers_block_lengths() {
     // the tag word is not an entry: the grammar is unambiguous
     if tag { let mut i2: &[u8] = &b[..4]; assert!(fifo_entry(&mut i2).is_err()); }
 }
+
+// ================================================================ C20: which entries of a marker-delimited chunk get a CSV row
+include!(concat!(env!("VERIF_FRAG_DIR"), "/frag_cb.rs"));
+
+fn any_timestamp() -> FifoEntry {
+    let c: u8 = kani::any();
+    kani::assume(c < 59);
+    FifoEntry::TimestampCounter(TimestampCounter {
+        channel: ChannelId(c),
+        timestamp: kani::any(),
+        edge: if kani::any() { EdgeType::Leading } else { EdgeType::Trailing },
+    })
+}
+fn any_marker() -> FifoEntry {
+    FifoEntry::WrapAroundMarker(WrapAroundMarker { timestamp_top_bit: kani::any(), counter: kani::any() })
+}
+fn ts_key(e: &FifoEntry) -> Option<(u8, u32)> {
+    match e { FifoEntry::TimestampCounter(t) => Some((t.channel.0, t.timestamp)), _ => None }
+}
+/// a piece as produced by `split_inclusive(is marker)`: n >= 1 entries, only the last may be a marker
+fn piece(last_is_marker: bool) -> ([FifoEntry; 3], usize) {
+    let n: usize = kani::any();
+    kani::assume(1 <= n && n <= 3);
+    let mut c = [any_timestamp(), any_timestamp(), any_timestamp()];
+    if last_is_marker { c[n - 1] = any_marker(); }
+    (c, n)
+}
+fn check_rows(c: &[FifoEntry]) {
+    let (next, rows) = split_row(c);
+    assert!(next.is_some() == matches!(c[c.len() - 1], FifoEntry::WrapAroundMarker(_)));
+    // every timestamp of the chunk gets a row, in order, and nothing else does
+    let mut expected = 0;
+    let mut i = 0;
+    while i < c.len() {
+        if let Some(k) = ts_key(&c[i]) {
+            assert!(expected < rows.len() && ts_key(&rows[expected]) == Some(k));
+            expected += 1;
+        }
+        i += 1;
+    }
+    assert!(expected == rows.len());
+}
+#[kani::proof]
+#[kani::unwind(5)]
+fn split_row_marker_chunks() {
+    let (c, n) = piece(true);
+    check_rows(&c[..n]);
+}
+#[kani::proof]
+#[kani::unwind(5)]
+fn split_row_keeps_all_timestamps() {
+    let (c, n) = piece(kani::any());
+    check_rows(&c[..n]);
+}
